@@ -306,4 +306,39 @@ def sizeEffect (op : SOp) (o : Out) : Int :=
   | .pop => if o.st = some .ok then -1 else 0
   | _ => 0
 
+/-! ## zip-iterator programs (C07) -/
+
+inductive ZipOp where
+  | next | remove | add (x y : Nat) | replace (x y : Nat) | index
+  deriving Repr, DecidableEq
+
+/-- what a zip-iterator call reports: status, the pair of out-values, the index -/
+structure ZOut where
+  st  : Option Stat := none
+  val : Option (Nat × Nat) := none
+  idx : Option Nat := none
+  deriving Repr, DecidableEq
+
+/-- the status of a zip call that was blocked (`zip_iter_add` whose growth step was refused) -/
+def ZOut.blocked (o : ZOut) : Option Stat :=
+  if o.st = some .errAlloc ∨ o.st = some .errMaxCapacity then o.st else none
+
+/-- one zip-iterator call on the ideal lock-step cursor (`blk`: blocking status of an `add`) -/
+def ZipCursor.step (c : ZipCursor) (op : ZipOp) (blk : Option Stat) : ZOut × ZipCursor :=
+  match op with
+  | .next => let r := c.next; ({ st := some r.1, val := r.2.1 }, r.2.2)
+  | .remove => let r := c.remove; ({ st := some r.1, val := r.2.1 }, r.2.2)
+  | .add x y => match blk with
+    | some st => ({ st := some st }, c)
+    | none => let r := c.add x y; ({ st := some r.1 }, r.2)
+  | .replace x y => let r := c.replace x y; ({ st := some r.1, val := r.2.1 }, r.2.2)
+  | .index => ({ idx := some c.index }, c)
+
+def ZipCursor.run (c : ZipCursor) : List ZipOp → List (Option Stat) → List ZOut × ZipCursor
+  | [], _ => ([], c)
+  | op :: ops, blks =>
+    let r := c.step op (blks.headD none)
+    let rs := ZipCursor.run r.2 ops blks.tail
+    (r.1 :: rs.1, rs.2)
+
 end CC.Spec.Seq
